@@ -201,7 +201,20 @@ replaced.`)
 		}
 		if len(args) > 1 {
 			if s, ok := args[1].(Int); ok {
-				selfStr = selfStr[s:]
+				// start is a character index (negative: from the end), not a byte offset
+				str := String(selfStr)
+				n := str.len()
+				start := int(s)
+				if start < 0 {
+					start += n
+					if start < 0 {
+						start = 0
+					}
+				}
+				if start > n {
+					return Bool(false), nil
+				}
+				selfStr = selfStr[str.pos(start):]
 			}
 		}
 
